@@ -2,7 +2,7 @@
 """Import wave-2 seeded changes from /tmp/seed2/<ID>/out/<k>/ into /verif/seeded/<ID>-<k>/."""
 import json, os, shutil, sys
 for pid in sys.argv[1:]:
-    base = f"/tmp/seed2/{pid}/out"
+    root = os.environ.get("SEED_BASE", "/tmp/seed2"); base = f"{root}/{pid}/out"
     for k in sorted(os.listdir(base)):
         src = os.path.join(base, k)
         if not os.path.isfile(os.path.join(src, "patch.diff")):
@@ -15,7 +15,7 @@ for pid in sys.argv[1:]:
                 shutil.copy(p, os.path.join(dst, f))
         mp = os.path.join(dst, "meta.json")
         m = json.load(open(mp)) if os.path.exists(mp) else {"title": "(no meta)"}
-        m.setdefault("property", pid); m["wave"] = 2
+        m.setdefault("property", pid); m["wave"] = int(os.environ.get("SEED_WAVE", "2"))
         json.dump(m, open(mp, "w"), indent=1)
         print("imported", dst)
-    os.system(f"git -C /repo worktree remove --force /tmp/seed2/{pid}/wt; rm -rf /tmp/seed2/{pid}/target /tmp/seed2/{pid}/tmp")
+    os.system(f"git -C /repo worktree remove --force {root}/{pid}/wt; rm -rf {root}/{pid}/target {root}/{pid}/tmp")
